@@ -869,7 +869,7 @@ def enum_arms(prog, body, enum_path):
             continue
         # type of the matched place
         pt = place_type_str(prog, body, pl)
-        if pt is None or enum_path.rsplit("::", 1)[-1] not in pt:
+        if pt is None or not re.match(r"^(&(mut )?)*" + re.escape(enum_path) + r"(<|$)", pt.strip()):
             continue
         arms = {}
         for v, tg in t.targets:
@@ -890,12 +890,20 @@ def norm_name(s):
 def place_type_str(prog, body, place):
     """type (as a string) of a place, resolved through the crate's ADT table; None if unknown"""
     cur = body.locals[place.local]["s"]
+    prev_dc = None
     for e in place.fields():
         if e == "*":
             continue
         if e[0] == "f":
             adt = prog.adts.get(e[2])
             if adt is None:
+                # payload of std Option / Result
+                base = re.sub(r"^(&(mut )?)*", "", cur.strip())
+                m = re.match(r"^std::option::Option<(.*)>$", base)
+                if m and prev_dc == "Some" and e[1] == "0":
+                    cur = m.group(1)
+                    prev_dc = None
+                    continue
                 return None
             ft = None
             for v in adt["variants"]:
@@ -905,7 +913,9 @@ def place_type_str(prog, body, place):
             if ft is None:
                 return None
             cur = ft
+            prev_dc = None
         elif e[0] == "dc":
+            prev_dc = e[1]
             continue
         else:
             return None
@@ -1008,3 +1018,200 @@ def kernel(prog, body, ignore_callees=()):
                     if o.kind == "const" and o.const["ty"] in ("bool", "u32", "usize", "f32"):
                         consts.add(o.const["val"])
     return {"callees": frozenset(callees), "adaptors": tuple(sorted(adaptors)), "not_parity": nots % 2, "consts": frozenset(consts)}
+
+
+def split_columns(body, pv):
+    """`next()` calls on a str split iterator, numbered by dominance: {bb: column index}"""
+    nexts = []
+    for bi, t in body.calls():
+        c = t.callee
+        if c.method == "next" and c.trait == "std::iter::Iterator" and re.search(r"std::str::(Split|SplitN|SplitWhitespace|RSplit)", c.def_args or ""):
+            root = None
+            if t.args and t.args[0].place is not None:
+                # root local of the iterator
+                l = t.args[0].place.local
+                seen = set()
+                while l not in seen:
+                    seen.add(l)
+                    ds = pv.defs(body).get(l, [])
+                    if len(ds) == 1 and ds[0][0] == "assign" and ds[0][2].rv["k"] in ("ref", "use"):
+                        rv = ds[0][2].rv
+                        pl = rv["place"] if rv["k"] == "ref" else rv["op"].place
+                        if pl is None:
+                            break
+                        l = pl.local
+                    else:
+                        break
+                root = l
+            nexts.append((bi, root))
+    cols = {}
+    for bi, root in nexts:
+        cols[bi] = len([1 for bj, r2 in nexts if r2 == root and bj != bi and body.dominates(bj, bi)])
+    return cols
+
+
+def columns_of(body, atoms, cols):
+    """column indices a value was read from (call atoms of numbered next() calls in `body`)"""
+    return {cols[a[4]] for a in atoms if a[0] == "call" and a[3] == body.id and a[4] in cols and a[1].endswith("::next")}
+
+
+def user_root_locals(body, pv, op, stop=None):
+    """variables (by MIR local) an operand is a copy / projection of, following copies, borrows, tuple fields and
+    Some-payloads.  With `stop` (a set of locals) the walk ends at those; otherwise at the first user-named local."""
+    out = set()
+    if op.place is None:
+        return out
+    work = [(op.place.local, tuple(e for e in op.place.fields() if e != "*"))]
+    seen = set()
+    defs = pv.defs(body)
+    while work:
+        l, path = work.pop()
+        if (l, path) in seen:
+            continue
+        seen.add((l, path))
+        if stop is not None:
+            if l in stop:
+                out.add(l)
+                continue
+        elif l in body.debug and not path:
+            out.add(l)
+            continue
+        for kind, pos, d in defs.get(l, []):
+            if kind != "assign":
+                continue
+            rv = d.rv
+            if rv["k"] == "use" and rv["op"].place is not None:
+                work.append((rv["op"].place.local, tuple(e for e in rv["op"].place.fields() if e != "*") + path))
+            elif rv["k"] == "ref":
+                work.append((rv["place"].local, tuple(e for e in rv["place"].fields() if e != "*") + path))
+            elif rv["k"] == "agg" and rv["agg"] == "tuple" and path and path[0][0] == "f" and path[0][1].isdigit():
+                i = int(path[0][1])
+                o = rv["ops"][i] if i < len(rv["ops"]) else None
+                if o is not None and o.place is not None:
+                    work.append((o.place.local, tuple(e for e in o.place.fields() if e != "*") + path[1:]))
+            elif rv["k"] == "agg" and rv["agg"] == "adt" and rv.get("variant") == "Some" and len(path) >= 2 and path[0] == ("dc", "Some"):
+                o = rv["ops"][0]
+                if o.place is not None:
+                    work.append((o.place.local, tuple(e for e in o.place.fields() if e != "*") + path[2:]))
+        for kind, pos, d in defs.get(l, []):
+            if kind == "call" and d.callee.method in ("unwrap", "expect", "clone", "copied", "cloned", "deref", "as_ref", "unwrap_or_default") and d.args and d.args[0].place is not None:
+                a = d.args[0].place
+                extra = (("dc", "Some"), ("f", "0", "opt")) if d.callee.method in ("unwrap", "expect") else ()
+                work.append((a.local, tuple(e for e in a.fields() if e != "*") + extra + path))
+    return out
+
+
+def string_key_arms(body, pv=None):
+    """`match key { "lit" => ... }` / `if key == "lit"`: returns {literal: dict(edge, region, assigned locals, line)} for
+    equality tests of a str against a string constant"""
+    if pv is None:
+        pv = Prov(body.prog, inline=False)
+    out = {}
+    for bi, t in body.calls():
+        c = t.callee
+        if c.trait == "std::cmp::PartialEq" and c.method in ("eq", "ne") and len(t.args) == 2 and t.dest.is_local():
+            lit = None
+            for a in t.args:
+                v = const_str_of(body, pv, a)
+                if v is not None:
+                    lit = v
+            if lit is None:
+                continue
+            for (sbi, tg) in positive_edges(body, pv, bi):
+                x = body.blocks[sbi].term
+                if c.method == "ne":
+                    others = [s for s in x.successors() if s != tg]
+                    if not others:
+                        continue
+                    tg = others[0]
+                region = body.region((sbi, tg))
+                assigned = set()
+                for pos, st in body.stmts():
+                    if pos[0] in region and st.k == "assign" and st.place.is_local() and st.place.local in body.debug:
+                        assigned.add(st.place.local)
+                out[lit] = {"edge": (sbi, tg), "region": region, "assigned": assigned, "line": t.line, "call_bb": bi}
+    return out
+
+
+def positive_edges(body, pv, call_bb):
+    """edges (switch_bb, target) on which the result of the call terminating block `call_bb` is positive
+    (true / Some / Ok), following is_some/is_none/is_ok/is_err, `!`, copies and discriminant reads"""
+    t0 = body.blocks[call_bb].term
+    if not t0.dest.is_local():
+        return []
+    defs = pv.defs(body)
+    out = []
+    for sbi in sorted(body.reach):
+        x = body.blocks[sbi].term
+        if x.k != "switch" or x.discr.place is None:
+            continue
+        l = x.discr.place.local
+        sign = 1
+        via_discr = False
+        ok = False
+        seen = set()
+        while l not in seen:
+            seen.add(l)
+            if l == t0.dest.local:
+                ok = True
+                break
+            ds = defs.get(l, [])
+            if len(ds) != 1:
+                break
+            kind, pos, d = ds[0]
+            if kind == "assign":
+                rv = d.rv
+                if rv["k"] == "use" and rv["op"].place is not None and not [e for e in rv["op"].place.fields() if e != "*"]:
+                    l = rv["op"].place.local
+                elif rv["k"] == "ref" and not [e for e in rv["place"].fields() if e != "*"]:
+                    l = rv["place"].local
+                elif rv["k"] == "un" and rv["op"] == "Not" and rv["o"].place is not None:
+                    sign = -sign
+                    l = rv["o"].place.local
+                elif rv["k"] == "discr" and not [e for e in rv["place"].fields() if e != "*"]:
+                    via_discr = True
+                    l = rv["place"].local
+                else:
+                    break
+            else:
+                m = d.callee.method
+                if m in ("is_some", "is_ok") and d.args and d.args[0].place is not None:
+                    l = d.args[0].place.local
+                elif m in ("is_none", "is_err") and d.args and d.args[0].place is not None:
+                    sign = -sign
+                    l = d.args[0].place.local
+                elif m in ("branch",) and d.args and d.args[0].place is not None:
+                    l = d.args[0].place.local
+                else:
+                    break
+        if not ok:
+            continue
+        vals = [v for v, _ in x.targets]
+        if via_discr:
+            # Option: None=0 Some=1 ; Result: Ok=0 Err=1 ; ControlFlow: Continue=0 Break=1
+            ty = body.locals[t0.dest.local]["s"]
+            pos_val = 1 if ty.startswith("std::option::Option") else 0
+            pos_t = [tg for v, tg in x.targets if v == pos_val] or ([x.otherwise] if pos_val not in vals and len(vals) == 1 else [])
+            neg_t = [tg for v, tg in x.targets if v != pos_val] or [x.otherwise]
+        else:
+            pos_t = [tg for v, tg in x.targets if v == 1] or ([x.otherwise] if vals == [0] else [])
+            neg_t = [tg for v, tg in x.targets if v == 0] or ([x.otherwise] if vals == [1] else [])
+        tg = pos_t if sign == 1 else neg_t
+        if tg:
+            out.append((sbi, tg[0]))
+    return out
+
+
+def const_str_of(body, pv, op):
+    """the string constant an operand denotes (directly or through references / promoted constants), else None"""
+    v = str_const(op)
+    if v is not None:
+        return v
+    atoms = pv.of_operand(body, op)
+    strs = [a for a in atoms if a[0] == "const" and a[1].replace("'static ", "") == "&str"]
+    others = [a for a in atoms if a[0] in ("param", "call", "field", "upvar", "source")]
+    if len(strs) == 1 and not others:
+        v = strs[0][2]
+        if v.startswith('"') and v.endswith('"'):
+            return v[1:-1]
+    return None
